@@ -785,6 +785,78 @@ func codeLeg(o hx.Opts) {
 	}
 }
 
+
+// ---------------------------------------------------------------- code leg 2: expansion indexing
+// ${v:o:l}, ${@:o:l}, ${a[@]:o:l} on dense and sparse arrays, $N, unset 'a[k]'
+
+type expCase struct {
+	V      string   `json:"v"`      // hex
+	Params []string `json:"params"` // hex
+	Arr    []string `json:"arr"`    // hex
+	Unsets []int64  `json:"unsets"`
+	Off    int64    `json:"off"`
+	HasLen bool     `json:"has_len"`
+	Len    int64    `json:"len"`
+	Digit  int      `json:"digit"`
+}
+
+var offs = []int64{0, 1, 2, 3, 4, 5, 7, -1, -2, -3, -4, -5, -7, 99, -99, 9223372036854775807, -9223372036854775807, 2147483648, -2147483648}
+
+func genExp(r *rand.Rand) (expCase, string) {
+	word := func() string {
+		return hx.Pick(r, []string{"a", "bc", "", "d e", "xyz", "-n", "0", "q"})
+	}
+	var c expCase
+	v := hx.Pick(r, []string{"", "a", "abc", "hello world", "0123456789", "x y"})
+	c.V = hx.Hex(v)
+	var ps, arr []string
+	for i, n := 0, r.IntN(5); i < n; i++ {
+		ps = append(ps, word())
+	}
+	for i, n := 0, r.IntN(6); i < n; i++ {
+		arr = append(arr, word())
+	}
+	c.Params, c.Arr = hx.HexList(ps), hx.HexList(arr)
+	for i, n := 0, r.IntN(4); i < n; i++ {
+		c.Unsets = append(c.Unsets, hx.Pick(r, []int64{0, 1, 2, 3, 4, 5, -1, -2, -3, -6, 9, -9, 9223372036854775807, -9223372036854775807}))
+	}
+	c.Off = hx.Pick(r, offs)
+	if r.IntN(4) > 0 {
+		c.HasLen = true
+		c.Len = hx.Pick(r, offs)
+	}
+	c.Digit = 1 + r.IntN(9)
+	sl := fmt.Sprintf(":(%d)", c.Off)
+	if c.HasLen {
+		sl += fmt.Sprintf(":(%d)", c.Len)
+	}
+	var sb strings.Builder
+	fmt.Fprintf(&sb, "v=%s\nset -- %s\na=(%s)\n", sq(v), sqAll(ps), sqAll(arr))
+	for _, k := range c.Unsets {
+		fmt.Fprintf(&sb, "unset 'a[%d]'\n", k)
+	}
+	fmt.Fprintf(&sb, "__obs \"${a[@]}\"\n__obs \"${!a[@]}\"\n__obs \"${v%s}\"\n__obs \"${@%s}\"\n__obs \"${a[@]%s}\"\n__obs \"${%d+S}${%d-U}\"\n", sl, sl, sl, c.Digit, c.Digit)
+	return c, sb.String()
+}
+
+func codeLeg2(o hx.Opts) {
+	r := hx.Rand(o.Seed, 2828)
+	p := &pool{watchdog: 20 * time.Second}
+	defer p.close()
+	for i := 0; i < o.N; i++ {
+		c, src := genExp(r)
+		resp := p.do(request{Kind: "run", Lang: "bash", Src: hx.Hex(src)})
+		if resp.Hang {
+			p.watchdog = 100 * time.Second
+			resp = p.do(request{Kind: "run", Lang: "bash", Src: hx.Hex(src)})
+			p.watchdog = 20 * time.Second
+		}
+		hx.Emit(map[string]any{"exp": c, "src": hx.Hex(src),
+			"panic": resp.Panic || (resp.Crash && !isResource(resp)), "msg": resp.Msg, "where": resp.Where,
+			"exit": resp.Exit, "obs": resp.Obs, "hang": resp.Hang, "parse_err": resp.ParseErr, "timeout": resp.Timeout, "crash": resp.Crash})
+	}
+}
+
 // ---------------------------------------------------------------- search
 
 var builtinNames = []string{":", "true", "false", "help", "times", "exit", "set", "shift", "unset", "echo", "printf", "break", "continue",
@@ -1312,6 +1384,8 @@ func main() {
 	switch o.Mode {
 	case "code":
 		codeLeg(o)
+	case "code2":
+		codeLeg2(o)
 	case "search":
 		search(o)
 	case "witness":
